@@ -1,0 +1,13 @@
+//go:build verif
+
+// Contracts for the database/sql driver (package driver). Comments only.
+
+package driver
+
+// Prepare: every statement gets a sqlittle handle of its own (handles are deliberately unsynchronised;
+// statements of one connection run their producer goroutines concurrently).
+//@ func (*driver.Connection).Prepare
+//@   props C20
+//@   modifies * -M:S_db_KeyCol -M:S_sqlittle_columnIndex hdr_valid hdr_ps hdr_cookie jr_pos peer_state lk_shared lk_pending other_shared
+//@   requires c != nil
+//@   ensures [own-handle] err == nil ==> hasType(r0, "*driver.Statement") && fresh(deref(r0, "*driver.Statement").dbh)
